@@ -13,6 +13,8 @@ import (
 	"verifharness/mon"
 	"verifharness/ref"
 	"verifharness/world"
+
+	"github.com/google/go-tdx-guest/verify"
 )
 
 // Registry maps property id -> workload.
@@ -61,6 +63,9 @@ func check(x *mon.Ctx, slot int, c *world.Case) (mon.Outcome, *ref.Verdict) {
 	}
 	if p := verdictProblem(c, out, v); p != "" {
 		x.Violation(c.Class, c.Param, p, "verify", c)
+	}
+	if x.Shadow && out.Panic == "" {
+		shadow(x, c, out)
 	}
 	nontrivial := true
 	if c.Expect == "reject" && out.Accepted {
@@ -121,3 +126,55 @@ func (v verifyTime) T() time.Time { return time.Unix(int64(v), 0).UTC() }
 type x509Cert = x509.Certificate
 
 func setProcs(n int) int { return runtime.GOMAXPROCS(n) }
+
+
+// shadow runs the case twice through an Options value that has already verified other cases of this
+// workload (whatever came before on this worker: same PKI with other CRLs / pools / collateral, or other
+// worlds). Hidden state surviving in the value — a cached pool, chain, collateral, "already checked"
+// memo — makes one of the two verdicts differ from the fresh one.
+func shadow(x *mon.Ctx, c *world.Case, fresh mon.Outcome) {
+	if x.SharedPool == nil {
+		return
+	}
+	var shared *verify.Options
+	select {
+	case v := <-x.SharedPool:
+		shared = v.(*verify.Options)
+	default:
+		shared = &verify.Options{}
+	}
+	for round := 1; round <= 2; round++ {
+		o := mon.RunVerifyShared(c, shared)
+		if o.Panic != "" {
+			x.Violation("reused-options/"+c.Class, c.Param, "panic through a re-used options value: "+o.Panic+"\n"+o.Stack, "verify", c)
+			break
+		}
+		if o.Accepted != fresh.Accepted {
+			x.Violation("reused-options/"+c.Class, c.Param, fmt.Sprintf("verdict through an options value that earlier verified other cases (use %d of this case: accepted=%v, err=%s) differs from the verdict through a fresh value (accepted=%v, err=%s)", round, o.Accepted, o.Err, fresh.Accepted, fresh.Err), "verify", c)
+			break
+		}
+	}
+	// deterministic history: the unbroken twin first (it leaves whatever a successful verification leaves), then this case
+	if c.TwinRef != nil && c.TwinRef != c {
+		sh := &verify.Options{}
+		t := *c.TwinRef
+		t.GetCollateral, t.CheckCRL = c.GetCollateral, c.CheckCRL
+		first := mon.RunVerifyShared(&t, sh)
+		o := mon.RunVerifyShared(c, sh)
+		if o.Panic == "" && first.Panic == "" && o.Accepted != fresh.Accepted {
+			x.Violation("reused-options/"+c.Class, c.Param, fmt.Sprintf("after verifying the unbroken twin (accepted=%v) through the same options value, this case is judged accepted=%v (err=%s); through a fresh value accepted=%v (err=%s)", first.Accepted, o.Accepted, o.Err, fresh.Accepted, fresh.Err), "verify", c)
+		}
+		x.Note("reused-options-after-twin", c.Class+"/"+c.Param+"/"+c.Form+"/"+lvl(c), fresh.Accepted, false, true)
+	}
+	x.Note("reused-options", c.Class+"/"+c.Param+"/"+c.Form+"/"+lvl(c), fresh.Accepted, false, true)
+	select {
+	case x.SharedPool <- shared:
+	default:
+	}
+}
+
+// enableShadow turns the re-used-options shadow run on for a workload.
+func enableShadow(x *mon.Ctx) {
+	x.Shadow = true
+	x.SharedPool = make(chan any, 64)
+}
